@@ -153,6 +153,7 @@ package bbolt
 //@   ensures [txid] tx.meta.txid == dbmeta(db).txid + (tx.writable ? 1 : 0)
 //@   ensures [copy] tx.meta.pgid == dbmeta(db).pgid && tx.meta.freelist == dbmeta(db).freelist && tx.meta.root.root == dbmeta(db).root.root && tx.meta.root.sequence == dbmeta(db).root.sequence && tx.meta.pageSize == dbmeta(db).pageSize
 //@   ensures [pages] tx.writable ==> tx.pages != nil && len(tx.pages) == 0
+//@   ensures [format] tx.meta.magic == dbmeta(db).magic && tx.meta.version == dbmeta(db).version
 //@   ensures [shared] db.meta0.txid == old(db.meta0.txid) && db.meta1.txid == old(db.meta1.txid) && tx.writable == old(tx.writable)
 
 //@ func (*Tx).close
@@ -231,6 +232,7 @@ package bbolt
 //@   props C01 C06 C08 C03
 //@   requires tx.db != nil && tx.meta != nil && tx.db.pageSize >= 512 && tx.db.pageSize <= 16777216 && !tx.db.metalock.held
 //@   requires [ordered] tx.db.NoSync || unsynced == 0
+//@   requires tx.meta.magic == common.Magic && tx.meta.version == common.Version
 //@   panics when tx.meta.root.root >= tx.meta.pgid || (tx.meta.freelist >= tx.meta.pgid && tx.meta.freelist != common.PgidNoFreelist)
 //@   ensures [slot] nwrites == old(nwrites) + 1 && lastwriteoff == (tx.meta.txid % 2) * tx.db.pageSize && lastwritelen == tx.db.pageSize
 //@   ensures [durable] err == nil && !tx.db.NoSync ==> unsynced == 0
